@@ -184,7 +184,15 @@ class Real(PackedOps):
             values = self.scalar_for(m, kv['val'])
         else:
             values = self.array_for(m, split_list(kv['vals']))
-        m.update_values_pix(pix, values, operation=kv.get('op', 'replace'))
+        if 'ring' in kv:
+            ring = np.array([int(t) for t in split_list(kv['ring'])], dtype=np.int64)
+            m.update_values_pix(ring, values, nest=False, operation=kv.get('op', 'replace'))
+        elif 'lon' in kv:
+            lon = np.array([float(t) for t in split_list(kv['lon'])])
+            lat = np.array([float(t) for t in split_list(kv['lat'])])
+            m.update_values_pos(lon, lat, values, operation=kv.get('op', 'replace'))
+        else:
+            m.update_values_pix(pix, values, operation=kv.get('op', 'replace'))
         return 'ok'
 
     def op_updr(self, pos, kv):
@@ -211,6 +219,19 @@ class Real(PackedOps):
             return enc_cells(m[a:b:st])
         pix = np.array([int(t) for t in split_list(kv.get('pix', '_'))], dtype=np.int64)
         path = kv.get('path', 'pix')
+        if 'ring' in kv:
+            ring = np.array([int(t) for t in split_list(kv['ring'])], dtype=np.int64)
+            if vm:
+                return enc_bits(m.get_values_pix(ring, nest=False, valid_mask=True))
+            return enc_cells(m.get_values_pix(ring, nest=False))
+        if 'lon' in kv:
+            lon = np.array([float(t) for t in split_list(kv['lon'])])
+            lat = np.array([float(t) for t in split_list(kv['lat'])])
+            if kv.get('lonlat', '1') == '0':
+                res = m.get_values_pos(lon, lat, lonlat=False, valid_mask=vm)
+            else:
+                res = m.get_values_pos(lon, lat, valid_mask=vm)
+            return enc_bits(res) if vm else enc_cells(res)
         if 'nsord' in kv:
             return enc_cells(m.get_values_pix(pix, nside=2 ** int(kv['nsord'])))
         if vm:
@@ -558,4 +579,65 @@ class Real(PackedOps):
         healsparse.cat_healsparse_files([self.files[n] for n in names], out, clobber=True, in_memory=True,
                                         check_overlap=(kv.get('check') == '1'), or_overlap=(kv.get('or') == '1'), **kw)
         self.files[kv.get('f', 'f')] = out
+        return 'ok'
+
+    # ---- HEALPix interchange -------------------------------------------------------
+    def op_fromhp(self, pos, kv):
+        dt = DTYPES[kv['dtype']]
+        vals = np.array([dec_val(t) for t in split_list(kv['vals'])]).astype(dt)
+        sent = kv.get('sentinel', 'default')
+        kw = {}
+        if sent != 'default':
+            v = dec_val(sent)
+            kw['sentinel'] = int(v) if kv.get('senttype', 'int' if np.dtype(dt).kind in 'iu' else 'flt') == 'int' \
+                else float(v)
+        self.pool[kv['r']] = HealSparseMap(healpix_map=vals, nside_coverage=2 ** int(kv['covord']),
+                                           nest=(kv.get('nest', '1') == '1'), **kw)
+        return 'ok'
+
+    def op_genhp(self, pos, kv):
+        m = self.m(pos[0])
+        kw = {}
+        if 'ord' in kv:
+            kw['nside'] = 2 ** int(kv['ord'])
+            kw['reduction'] = kv.get('red', 'mean')
+        if 'key' in kv:
+            kw['key'] = m.dtype.names[int(kv['key'])]
+        return enc_cells(m.generate_healpix_map(nest=(kv.get('nest', '1') == '1'), **kw))
+
+    def op_interp(self, pos, kv):
+        m = self.m(pos[0])
+        lon = np.array([float(t) for t in split_list(kv['lon'])])
+        lat = np.array([float(t) for t in split_list(kv['lat'])])
+        return enc_cells(m.interpolate_pos(lon, lat, allow_partial=(kv.get('partial') == '1')))
+
+    def op_hpxwrite(self, pos, kv):
+        m = self.m(pos[0])
+        path = os.path.join(self.tmpdir(), kv.get('f', 'f') + '.hpx.fits')
+        m.write(path, clobber=True, format='healpix')
+        self.files[kv.get('f', 'f')] = path
+        return 'ok'
+
+    def op_hpximplicit(self, pos, kv):
+        """a full-sky HEALPix file as healpy would write it (written here with astropy)"""
+        import astropy.io.fits as afits
+        dt = DTYPES[kv['dtype']]
+        vals = np.array([dec_val(t) for t in split_list(kv['vals'])]).astype(dt)
+        col = kv.get('col', 'T')
+        tbl = np.zeros(vals.size, dtype=[(col, dt)])
+        tbl[col] = vals
+        hdu = afits.BinTableHDU(tbl)
+        hdu.header['PIXTYPE'] = 'HEALPIX'
+        hdu.header['ORDERING'] = kv.get('ordering', 'NESTED')
+        hdu.header['INDXSCHM'] = 'IMPLICIT'
+        hdu.header['NSIDE'] = 2 ** int(kv['spord'])
+        path = os.path.join(self.tmpdir(), kv.get('f', 'f') + '.hpi.fits')
+        hdu.writeto(path, overwrite=True)
+        self.files[kv.get('f', 'f')] = path
+        return 'ok'
+
+    def op_hpxread(self, pos, kv):
+        if kv.get('f', 'f') not in self.files:
+            raise NoMap(kv.get('f', 'f'))
+        self.pool[kv['r']] = HealSparseMap.read(self.files[kv.get('f', 'f')], nside_coverage=2 ** int(kv['covord']))
         return 'ok'
